@@ -155,7 +155,12 @@ func (muxerSlice) Gen(r *rand.Rand, _ int, tier string) ([]string, []string) {
 	}
 	ops = append(ops, fmt.Sprintf("start v=%s segcount=%d segmin=%d partmin=%d maxsize=%d dir=%s", variant, segCount, segMin, partMin, maxSize, b01(dir)))
 	for _, t := range tracks {
-		ops = append(ops, fmt.Sprintf("track codec=%s rate=%d sr=%d", t.codec, t.rate, t.sr))
+		line := fmt.Sprintf("track codec=%s rate=%d sr=%d", t.codec, t.rate, t.sr)
+		if t.codec == "av1" && r.Intn(2) == 0 {
+			line += " szf=1" // AV1 sequence headers in the low-overhead form (with obu_size)
+			tags = append(tags, "av1-sized-seqhdr")
+		}
+		ops = append(ops, line)
 	}
 	ops = append(ops, "begin")
 	tags = append(tags, fmt.Sprintf("tracks=%d", len(tracks)))
@@ -406,9 +411,7 @@ func (muxerSlice) Gen(r *rand.Rand, _ int, tier string) ([]string, []string) {
 				if t.codec != "vp9" && t.par > 2 {
 					t.par = 1 + t.par%2
 				}
-				if t.codec == "h265" {
-					t.par = 1 // one parameter-set triple (the DTS extractor parses it)
-				}
+				// H265: two parameter-set triples (both without VUI timing info: the DTS extractor returns DTS = PTS)
 				if ra {
 					par = t.par
 				} else {
